@@ -66,6 +66,8 @@ def inline_population(tier, seed):
         tries += 1
         g = gen.random_grammar(rng, i, max_nt=4, max_t=3, max_prods=8, max_rhs=3,
                                shape=rng.choice(["layered", "lists", "plain", "layered"]))
+        if rng.random() < 0.3:
+            g = core.add_markers(g, rng)
         cg = core.annotate(g, rng, p_loc=0.0, p_fallible=0.25)
         cand = core.inlinable(cg)
         # only nonterminals that are actually used somewhere are interesting
